@@ -20,6 +20,8 @@ def check(model, R, tier):
     T.check_ops(model, R, ops, 'C02')
     from sa.rules_flags import check_flags
     check_flags(model, R, 'C02', 'synapgrad.nn.functional', rules=('COVER',))
+    from sa.rules_flags import check_presence
+    check_presence(model, R, 'C02')
     K.check_glin(model, R, ops, 'C02')
     kernels = [model.func(d) for d in sorted({d for o in ops for d, _, _ in o.bwd_calls})]
     R.analysed['backward_kernels'] = [k.qualname for k in kernels]
